@@ -16,7 +16,9 @@ RULE = ("two tables read from generated BED/BED6/VCF/SAM/FASTQ/two-line FASTA/BA
         "keys (nested lazy INFO table observed through its DP key; implementation lazy vs eager only), "
         "canonical and non-canonical text, whole and chunked read, or the two registers are the first two chunks handed out by ONE reader "
         "(read_chunk twice: objects of the same lazy class, both alive, one modified while the other is observed), a single row "
-        "t[i] with i spelled as Python int / np.int64 / np.int32 / np.intp, each program run twice (lazy=True / lazy=False): random "
+        "t[i] with i spelled as Python int / np.int64 / np.int32 / np.intp, each program run twice (lazy / eager, each mode asked for "
+        "through one combination of the documented switches: bionumpy.config.LAZY assigned or via ConfigContext x the lazy= keyword x "
+        "default - the keyword wins, then the config - and the tables must BE of that mode): random "
         "register programs over {len, get field, t[slice|mask|int list], t[i], np.concatenate([t,u]), replace(t, f=values), iteration, "
         "todict, str(), "
         "t.f = values, tolist, write}; observation after every step (lazy writes are additionally held to C04's rule: original bytes when "
@@ -254,6 +256,9 @@ def make_case(rng, fmt, nops, canonical=None, parts=False):
          "tables": tabs, "ops": ops, "chunk": 0 if (fmt == "bam" or pinfo) else rng.choice([0, 0, 0, 1, 30, 100])}
     if pinfo:
         c["parts"] = pinfo
+    if rng.random() < 0.25:
+        # each mode asked for through another combination of the documented switches (config.LAZY x lazy= keyword x default)
+        c["sw"] = {"lazy": rng.choice(G.SWITCHES_LAZY), "eager": rng.choice(G.SWITCHES_EAGER)}
     return c
 
 
@@ -307,6 +312,16 @@ def cases(tier, rng):
                     [{"k": "tolist", "a": 0}, {"k": "setattr", "a": 0, "f": rep[0], "c": _rand_kw_vals(rng, fmt, rep[0], n0)}, {"k": "tolist", "a": 1}]]
             for sc in scen:
                 yield dict(base, ops=sc + base["ops"])
+    # the documented switches of laziness and their precedence: every lazy combination x every eager combination, on canonical and
+    # non-canonical text of every format (the observations must be those of the mode the keyword - or, without it, the config - says)
+    for fmt in fmts:
+        for canonical in (True, False):
+            base = make_case(rng, fmt, 0, canonical)
+            pairs = [(a, b) for a in G.SWITCHES_LAZY for b in G.SWITCHES_EAGER]
+            for a, b in (pairs if big else rng.sample(pairs, 7) + [(G.SWITCHES_LAZY[i + 1], G.SWITCHES_EAGER[i]) for i in range(6)]):
+                ops = [{"k": "len", "a": 0}, {"k": "get", "a": 0, "f": 1 % len(KINDS[fmt])}, {"k": "write", "a": 0},
+                       {"k": "index", "a": 1, "d": 1, "ix": {"slice": [None, None, -1]}}, {"k": "write", "a": 1}]
+                yield dict(base, ops=ops + base["ops"], chunk=0, sw={"lazy": a, "eager": b})
     # exhaustive small scope: every program of length <= 2 (quick) / <= 3 (thorough) over a 14-operation alphabet
     yield from _exhaustive(rng, 3 if big else 2)
 
@@ -511,16 +526,27 @@ def _run_mode(c, lazy, paths, d):
     bt = G._buffer_type(fmt)
     kinds, names = KINDS[fmt], NAMES[fmt]
     regs = []
-    if c.get("parts"):
-        f = bnp.open(paths[0], buffer_type=bt, lazy=lazy)
-        regs = [f.read_chunk(min_chunk_size=c["parts"]["size"]), f.read_chunk(min_chunk_size=c["parts"]["size"])]
-    for i, p in enumerate(paths if not c.get("parts") else []):
-        f = bnp.open(p, buffer_type=bt, lazy=lazy)
-        if i == 0 and c["chunk"]:
-            chunks = list(f.read_chunks(min_chunk_size=c["chunk"]))
-            regs.append(np.concatenate(chunks) if len(chunks) != 1 else chunks[0])
-        else:
-            regs.append(f.read())
+    # the mode is asked for through one combination of the documented switches (config.LAZY x lazy= keyword x default);
+    # whatever the combination, the tables must BE of the mode the keyword / the config says
+    sw = (c.get("sw") or {}).get("lazy" if lazy else "eager") or [None, lazy, ""]
+    fresh = []
+    G.CTX_LEAK[0] = False
+    with G.switches(sw) as kw:
+        if c.get("parts"):
+            f = bnp.open(paths[0], buffer_type=bt, **kw)
+            regs = [f.read_chunk(min_chunk_size=c["parts"]["size"]), f.read_chunk(min_chunk_size=c["parts"]["size"])]
+            fresh += regs
+        for i, p in enumerate(paths if not c.get("parts") else []):
+            f = bnp.open(p, buffer_type=bt, **kw)
+            if i == 0 and c["chunk"]:
+                chunks = list(f.read_chunks(min_chunk_size=c["chunk"]))
+                fresh += chunks
+                regs.append(np.concatenate(chunks) if len(chunks) != 1 else chunks[0])
+            else:
+                regs.append(f.read())
+                fresh.append(regs[-1])
+    if G.CTX_LEAK[0] or any(len(t) and G.is_lazy(t) != lazy for t in fresh):
+        return ["wrong-mode"] * len(c["ops"]), {str(i): "WrongMode" for i in range(len(c["ops"]))}
     trace, errs = [], {}
     for step, o in enumerate(c["ops"]):
         k, a = o["k"], o["a"]
@@ -714,6 +740,9 @@ def model_request(c):
 def finding_key(c, got, exp):
     if not isinstance(got, dict) or "lazy" not in got:
         return "harness"
+    for mode in ("lazy", "eager"):
+        if "wrong-mode" in got[mode]:
+            return f"switches:{mode}-asked-other-mode-delivered"
     i = _first_diff(c, got)
     if i is None:
         return f"{c['fmt']}:write:lazy-original-text-lost" if _lazy_write_diff(c, got, exp) is not None else "none"
